@@ -368,7 +368,12 @@ func (st *rtState) concretise(q rtReq, rng *rand.Rand) (method, target string, h
 		case "b64":
 			qs.Set("state", "!!!")
 		case "json":
-			qs.Set("state", base64.RawURLEncoding.EncodeToString([]byte(pick(rng, "{", "[]", "{\"offset\":\"x\"}", "{\"offset\":1.5}", "null", "null", "true", "7", "\"x\""))))
+			opts := []string{"{", "[]", "{\"offset\":\"x\"}", "{\"offset\":1.5}", "true", "7", "\"x\""}
+			if acc > 0 {
+				// the literal null decodes to offset 0: only a wrong token while the session holds data
+				opts = append(opts, "null", "null")
+			}
+			qs.Set("state", base64.RawURLEncoding.EncodeToString([]byte(pick(rng, opts...))))
 		case "neg":
 			qs.Set("state", stateTok(-1))
 		case "huge":
